@@ -1,5 +1,7 @@
 import RosuModel.Lemmas.DecodeBytes
 import RosuModel.Props.C06b
+import RosuModel.Lemmas.DecodeLineCurve
+import RosuModel.Gen.DecodeKeys
 
 /-!
 # C06 (byte level) — rosu-map's reader under `from_bytes` / `from_str` / `from_path`
@@ -78,5 +80,51 @@ theorem utf16_newline_byte_inside_a_code_unit :
     readBytes [0xFE, 0xFF, 0x00, 0x61, 0x4E, 0x0A, 0x00, 0x62] = some ["a上".toList, "b".toList] ∧
     readBytes [0xFF, 0xFE, 0x61, 0x00, 0x0A, 0x4E, 0x62, 0x00] = some ["a上".toList, "b".toList] := by
   decide
+
+/-! ## the regular tables, regenerated from /repo on every run (`Gen/DecodeKeys.lean`) -/
+
+/-- every arm of `match key` in `parse_difficulty` (key, field, parser, the two approach-rate
+side effects) and the `KeyValue::parse(line.trim_comment())` prelude are the table that drives the
+model's `parseDifficulty` -/
+theorem difficulty_arms_match_source :
+    Gen.DecodeKeys.difficultyArms.map (fun t => (t.1.toList, t.2.1.toList, t.2.2)) =
+      difficultyArms.map (fun a => (a.key.toList, a.field.fieldName.toList, a.f64, a.arFollows, a.setsHasAr)) ∧
+    Gen.DecodeKeys.difficultyPreludeOk = true := by decide
+
+/-- the arms of `parse_general`, its `_ => {}` wildcard and prelude -/
+theorem general_arms_match_source :
+    Gen.DecodeKeys.generalArms.map (fun t => (t.1.toList, t.2.1.toList, t.2.2.toList)) =
+      generalArms.map (fun a => (a.key.toList, a.field.fieldName.toList, a.parser.toList)) ∧
+    Gen.DecodeKeys.generalWildcardNoop = true ∧ Gen.DecodeKeys.generalPreludeOk = true := by decide
+
+/-- the `parse_*` methods whose body is just `Ok(())` are exactly the model's no-op sections -/
+theorem noop_parsers_match_source :
+    Gen.DecodeKeys.noopParsers.map String.toList =
+      (allSecs.filter Sec.isNoop).map (fun s => s.parserName.toList) := by decide
+
+/-- the repeat cap, `MAX_COORDINATE_VALUE` (as the f64 / f32 limits of the model) and the order of
+the `has_flag` tests (`parseKind` tests circle, slider, spinner, hold in this order) -/
+theorem hit_object_constants_match_source :
+    (Gen.DecodeKeys.repeatCap : Int) = repeatCap ∧
+    F64.ofBin false Gen.DecodeKeys.maxCoordinateValue 0 = maxCoord64 ∧
+    F32.ofBin false Gen.DecodeKeys.maxCoordinateValue 0 = maxCoord32 ∧
+    Gen.DecodeKeys.flagOrder.map String.toList =
+      ["CIRCLE", "SLIDER", "SPINNER", "HOLD"].map String.toList := by decide
+
+/-! ## (d) the general append law and the non-empty path -/
+
+/-- Whatever is already in `curve_points` — in particular the stale points a rejected slider line
+left behind — stays in front, untouched, of the points the conversion itself produces; result and
+error kind do not depend on the old content. -/
+theorem stale_points_are_a_prefix (stale curve : List CP) (s : Str) (ox oy : Int) :
+    convertPathStr (stale ++ curve) s ox oy =
+      (stale ++ (convertPathStr curve s ox oy).1, (convertPathStr curve s ox oy).2) :=
+  convertPathStr_append stale curve s ox oy
+
+/-- Every successful `convert_path_str` leaves at least one control point, so every accepted slider
+has a non-empty `control_points` (part of `KindOK` in `C06b.accepted_hit_object_fields`). -/
+theorem accepted_path_has_a_control_point (curve : List CP) (s : Str) (ox oy : Int)
+    (h : (convertPathStr curve s ox oy).2 = .ok ()) : (convertPathStr curve s ox oy).1 ≠ [] :=
+  convertPathStr_ok_ne_nil curve s ox oy h
 
 end Rosu.C06c
